@@ -169,6 +169,20 @@ def h_resubmit(shapes=("chain3", "fork3"), bss=(2,), flagsets=None, incomplete=T
                 rc1[name] = ex.choice("rc1_" + name, 2)
             return rc1[name]
 
+        def consistency(w_, path):  # C09's consistency clauses (not the monotonicity ones: a resubmission resets jobs on purpose)
+            if not path.endswith("cluster_config.json.lock"):
+                return
+            c_ = cluster_status(out)
+            if c_ is None or c_.job_status is None:
+                return
+            done = sum(1 for j_ in c_.job_status.jobs if j_.state.value == "done")
+            sub = sum(1 for j_ in c_.job_status.jobs if j_.state.value != "not_submitted")
+            ex.check(c_.config.completed_jobs == done, "C09/C13: completed counter != number of done jobs", counter=c_.config.completed_jobs,
+                     done=done)
+            ex.check(c_.config.completed_jobs <= c_.config.submitted_jobs <= c_.config.num_jobs,
+                     "C09/C13: completed <= submitted <= total violated", completed=c_.config.completed_jobs, submitted=c_.config.submitted_jobs)
+
+        w.unlock_observer = consistency
         p = w.user(["jade", "submit-jobs", cfg, "-o", out])
         ex.check(p.rc == 0, "C13: initial submit-jobs failed", err="".join(p.err)[-300:])
         # ---- refusal on a submission that is not complete (optionally while another node is submitter)
